@@ -471,8 +471,10 @@ impl<A: Send + 'static> Cell<A> {
                         let inner_s = inner_s.upgrade().unwrap();
                         inner_s.with_firing_op(|firing_op: &mut Option<A>| {
                             if let Some(ref firing) = firing_op {
-                                let sa = sa.unwrap();
-                                sa._send(firing.clone());
+                                // every handle of the result may be gone while the nodes await collection
+                                if let Some(sa) = sa.upgrade() {
+                                    sa._send(firing.clone());
+                                }
                             }
                         });
                     },
@@ -573,7 +575,11 @@ impl<A: Send + 'static> Cell<A> {
                                 // as a dependency: its dependents (this switch among them) must not be
                                 // walked from inside this update
                                 sodium_ctx.update_node2(firing.updates().node(), true);
-                                let sa = sa.unwrap();
+                                // every handle of the result may be gone while the nodes await collection
+                                let sa = match sa.upgrade() {
+                                    Some(sa) => sa,
+                                    None => return,
+                                };
                                 sa._send(firing.sample());
                                 node1.data.changed.store(true, Ordering::SeqCst);
                                 node2.data.changed.store(true, Ordering::SeqCst);
@@ -607,8 +613,9 @@ impl<A: Send + 'static> Cell<A> {
                     let last_inner_s = last_inner_s.upgrade().unwrap();
                     last_inner_s.with_firing_op(|firing_op: &mut Option<A>| {
                         if let Some(ref firing) = firing_op {
-                            let sa = sa.unwrap();
-                            sa._send(firing.clone());
+                            if let Some(sa) = sa.upgrade() {
+                                sa._send(firing.clone());
+                            }
                         }
                     });
                 };
